@@ -15,12 +15,21 @@ def fq(a):
     return np.rint(np.clip(a, -1.3e5, 1.3e5) * S).astype(int).tolist()
 
 
-def fit_kde(D, w, G, cell, s, Q, fp, fs, reach=None, prior=None):
+def fit_kde(D, w, G, cell, s, Q, fp, fs, reach=None, prior=None, msc=None):
     from skmatter.neighbors import SparseKDE
     mp_ = {"cell_length": np.asarray(cell, float) / s} if len(cell) else None
+    extra = {}
+    if msc is not None:
+        # a metric chosen by the caller: the periodic Euclidean metric of anisotropically stretched coordinates
+        from skmatter.metrics import periodic_pairwise_euclidean_distances as ppd
+        sc = np.asarray(msc, float)
+
+        def metric(X, Y, squared=True, cell_length=None):
+            return ppd(np.asarray(X) * sc, np.asarray(Y) * sc, squared=squared, cell_length=None if cell_length is None else np.asarray(cell_length) * sc)
+        extra["metric"] = metric
     # equal weights are passed as None (the documented default: uniform weights) half of the time
     wts = None if (len(set(int(v) for v in w)) == 1 and (int(np.sum(D)) + len(G)) % 2 == 0) else np.asarray(w, float).copy()
-    kde = core.mk(SparseKDE, descriptors=np.asarray(D, float) / s, weights=wts, metric_params=mp_, fpoints=fp, fspread=fs)
+    kde = core.mk(SparseKDE, descriptors=np.asarray(D, float) / s, weights=wts, metric_params=mp_, fpoints=fp, fspread=fs, **extra)
     Gf = np.asarray(G, float) / s
     if prior is not None:
         # history: the same estimator object was fitted on another grid of the same size and queried before
@@ -167,6 +176,32 @@ def case(cid, rng):
                             "kdecut": fq([kde.kdecut_squared])[0], "score": fq(ld - dim * np.log(u)), "unit_exponent": e_}
             except Exception:
                 pass
+            if dim >= 2 and rng.random() < 0.4:
+                # the same data under a metric of the caller's choice (with or without a cell): recorded in the stretched
+                # coordinates, in which that metric is the plain (periodic) Euclidean one; assignment, weights, definiteness
+                # and the score identity are decided for it like for any other fit
+                msc = [int(v) for v in rng.permutation([1, 2, 3])[:dim]]
+                c2 = {"id": cid + "-metric", "kind": kind + "+metric", "D": (D * np.array(msc)).astype(int).tolist(), "w": c["w"], "G": (G * np.array(msc)).astype(int).tolist(),
+                      "cell": [int(a * b) for a, b in zip(cell, msc)], "fp": c["fp"], "raised": False, "errclass": "", "labels": [], "gw": [], "H": [[[0] * dim] * dim] * ng,
+                      "finite": True, "ld": [0] * len(Q), "score": 0, "routes": [], "reach": [], "ldfinite": True}
+                try:
+                    k2, l2 = fit_kde(D, w, G, cell, s, Q, fp, fs, reach=c2["reach"], msc=msc)
+                    H2 = np.asarray(k2.bandwidth_, float)
+                    c2["finite"] = bool(np.all(np.isfinite(H2)))
+                    c2["ldfinite"] = bool(np.all(np.isfinite(l2)))
+                    if c2["finite"] and c2["ldfinite"]:
+                        c2["labels"] = [int(v) + 1 for v in k2._sample_labels_]
+                        g2 = np.asarray(k2._sample_weights, float) * W
+                        c2["gw"] = [int(round(v)) if abs(v - round(v)) < 1e-6 else -1 for v in g2]
+                        c2["H"] = [fq(h / 2.0 ** np.ceil(np.log2(np.abs(h).max()))) for h in H2]
+                        c2["ld"] = fq(l2)
+                        c2["score"] = fq([k2.score(Q / s)])[0]
+                except Exception as e2:  # noqa
+                    if "infs or NaNs" in str(e2):
+                        c2["finite"] = False
+                    else:
+                        c2["raised"], c2["errclass"], c2["msg"] = True, type(e2).__name__, "%s: %s" % (type(e2).__name__, str(e2)[:120])
+                c["also"] = c2
             # symmetry routes (grid-point image shifts last, see known_findings.json)
             def route(kind_, D2, w2, G2, Q2):
                 try:
@@ -203,7 +238,13 @@ def case(cid, rng):
 def gen(args):
     wid, n, sd = args
     rng = np.random.default_rng([sd, wid, 1717])
-    return [case("w%d-%d" % (wid, t), rng) for t in core.timed(range(n))]
+    out = []
+    for t in core.timed(range(n)):
+        c = case("w%d-%d" % (wid, t), rng)
+        out.append(c)
+        if c.get("also"):
+            out.append(c.pop("also"))
+    return out
 
 
 KEYS = ("id", "D", "w", "G", "cell", "fp", "raised", "errclass", "labels", "gw", "H", "finite", "ld", "score", "routes", "reach", "ldfinite")
